@@ -51,7 +51,7 @@ class JsonRPC:
             raise exceptions.UnsupportedMediaType()
 
         try:
-            request_text = request.get_data(as_text=True)
+            request_text = request.get_data().decode()
         except UnicodeDecodeError as e:
             raise exceptions.BadRequest() from e
 
